@@ -224,7 +224,8 @@ type EObs struct {
 	Established bool   `json:"established"`             // Conn: the client got the backend's answer
 	ClientSaw   string `json:"clientSaw,omitempty"`     // Conn: "reply" | "closed" | "timeout"
 	ClosedNow   []int  `json:"closedNow,omitempty"`     // client connections found closed after the step
-	MustOpen    []int  `json:"mustStillOpen,omitempty"` // connections that had to be closed and were still open at the deadline
+	Must        []int  `json:"must,omitempty"`          // connections whose backend address left the set in this step
+	MustOpen    []int  `json:"mustStillOpen,omitempty"` // ... and that were still open at the deadline
 	DeadlineMs  int    `json:"deadlineMs,omitempty"`
 	Probes      []int  `json:"probes,omitempty"` // Round: backends whose probe was released
 }
@@ -345,13 +346,18 @@ func (r *e2eRun) anyHeld() bool {
 	return false
 }
 
-// sweep records which client connections the processor has closed; must lists the ones the
-// property requires to be closed now.
-func (r *e2eRun) sweep(must []connInfo, o *EObs) {
+// sweep records which client connections the processor has closed; leaving lists the backend
+// addresses that stopped being members in this step: the connections established to them (by
+// the harness' own bookkeeping of which backend answered which client) must be closed now.
+func (r *e2eRun) sweep(leaving map[int]bool, o *EObs) {
 	mustSet := map[int]bool{}
-	for _, m := range must {
-		mustSet[m.ID] = true
+	for id, cc := range r.clients {
+		if leaving[cc.back] {
+			mustSet[id] = true
+			o.Must = append(o.Must, id)
+		}
 	}
+	sort.Ints(o.Must)
 	ids := []int{}
 	for id := range r.clients {
 		ids = append(ids, id)
@@ -515,7 +521,20 @@ func runE2E(id int, policy string, steps []EStep, naddr int, longLeft *int, long
 			time.Sleep(30 * time.Millisecond)
 		}
 		if s.Op != "Toggle" {
-			r.sweep(s.Must, &o)
+			// addresses that stop being members by the meaning of the operation (variant independent)
+			leaving := map[int]bool{}
+			if i > 0 {
+				prev := steps[i-1].Members
+				for a := 1; a <= len(prev); a++ {
+					if prev[a-1] == "none" {
+						continue
+					}
+					if (s.Op == "Remove" && s.A == a) || (s.Op == "ReplaceAll" && a <= len(s.F) && s.F[a-1] == "none") {
+						leaving[a] = true
+					}
+				}
+			}
+			r.sweep(leaving, &o)
 		}
 		res.Obs = append(res.Obs, o)
 	}
